@@ -158,3 +158,25 @@ def origin_calls(fn, operand, defs=None, _seen=None):
             elif x['k'] == 'ref' and all(e == '*' for e in x['place']['p']):
                 st.append(x['place']['l'])
     return out
+
+
+def table_length_guard(db):
+    """table_decommit rejects unless the number of cells is columns * queries. Accepted forms:
+    n_columns * len(queries) == len(values), or the equivalent pair len(values) % n_columns == 0 and
+    len(values) / n_columns == len(queries)."""
+    import dataflow
+    gs = [g for g in dataflow.effective_guards(db, TABLE_DECOMMIT)
+          if g.rel == 'EQ' and g.covers == 'all' and g.fn == TABLE_DECOMMIT and g.reject in ('err', 'mixed')]
+
+    def side(x, need, ops):
+        return all(any(l == n or l.startswith(n) for l in x) for n in need) and all(('op:' + o) in x for o in ops)
+    prod = div = rem = False
+    for g in gs:
+        for x, y in ((g.lhs, g.rhs), (g.rhs, g.lhs)):
+            if 'len(a3.values)' in x and side(y, ['len(a2)', 'a1.config.n_columns'], ['mul']) and 'op:div' not in x | y and 'op:rem' not in x | y:
+                prod = True
+            if side(x, ['len(a3.values)', 'a1.config.n_columns'], ['div']) and 'len(a2)' in y:
+                div = True
+            if side(x, ['len(a3.values)', 'a1.config.n_columns'], ['rem']) and any(l in ('lit:0',) for l in y):
+                rem = True
+    return prod or (div and rem)
